@@ -15,7 +15,7 @@ from simlib.driver import CheckBase
 
 TOOLS = ["exp2cxx", "exp2python", "exppp", "schema_scanner"]
 BASE = {"heap_seed": 0, "env_pad": 0, "loader": "direct", "cwd_depth": 0, "cwd_name": "d", "path_style": "abs", "lc_all": "C",
-        "express_path": 0, "clock": 1000000000, "prior_runs": 0}
+        "express_path": 0, "clock": 1000000000, "prior_runs": 0, "env_vars": {}}
 
 
 class C12(CheckBase):
@@ -24,7 +24,7 @@ class C12(CheckBase):
     engine = "toolsim"
     rule = ("plan = (tool in {exp2cxx, exp2python, exppp, schema_scanner}) x (schema: shipped data/*.exp, hand-written kitchen sink, seeded generated "
             "schemas) x (one seeded perturbation record: heap seed for the LD_PRELOAD shim [placement, padding, fill byte, scribbled frees, dirtied stack], "
-            "environment padding, loader variant, cwd name/depth, input path spelling, LC_ALL, EXPRESS_PATH, clock, 0..2 earlier runs in the same "
+            "environment padding, loader variant, cwd name/depth, input path spelling, LC_ALL, EXPRESS_PATH, other environment variables (HOME, TMPDIR, LANG, USER, TZ, COLUMNS, ...), clock, 0..2 earlier runs in the same "
             "directory); the perturbed run's output tree and exit status are compared with the reference run (all dimensions at their base value). "
             "non-trivial = the reference run wrote >= 1 file and the perturbation differs from the base in >= 1 dimension; "
             "distinct = hash(tool, schema, set of perturbed dimensions)")
@@ -99,6 +99,11 @@ class C12(CheckBase):
                 pb[d] = r.choice([0, 1, 2147483647, 4102444800])
             elif d == "prior_runs":
                 pb[d] = r.choice([1, 2])
+            elif d == "env_vars":
+                pool = {"HOME": "/nonexistent", "TMPDIR": "<top>/tmp2", "LANG": "de_DE.UTF-8", "USER": "someone", "LOGNAME": "someone", "TZ": "Asia/Tokyo",
+                        "COLUMNS": "40", "TERM": "dumb", "LC_NUMERIC": "de_DE.UTF-8", "POSIXLY_CORRECT": "1"}
+                ks = r.sample(sorted(pool), r.randint(1, 4))
+                pb[d] = {k: pool[k] for k in ks}
         return {"property": "C12", "tool": tool, "schema": name, "schema_text": text, "perturb": pb, "args": self.args_for(tool, r)}
 
     @staticmethod
